@@ -138,13 +138,30 @@ func runCold(s *Session) []obs.Event {
 					}
 				}()
 				data := map[string]interface{}{"req": newCObj(r.Q)}
-				c := &dispatch.Call{Method: r.Method, Via: "direct", B: true, N: r.N, M: r.M, Names: r.Names, Dag: r.Dag}
+				via := r.Via
+				if via == "em" || via == "" {
+					via = map[string]string{"em": "emMulti", "": "direct"}[via] // the rules need the request's own data
+				}
+				c := &dispatch.Call{Method: r.Method, Via: via, B: true, N: r.N, M: r.M, Names: r.Names, Dag: r.Dag}
 				<-start
 				e, _ := dispatch.PoolCall(p, c, &engine.Stag{}, data)
 				if e != nil {
 					errs[i] = e.Error()
 				}
 			}(i, &st.Reqs[i])
+		}
+		if st.Flips > 0 {
+			// a management goroutine sets the execution model (to the value it already has, so that nothing a
+			// request computes depends on it) while the requests run; nothing but the pool orders the two
+			wg.Add(1)
+			go func() {
+				defer wg.Done()
+				<-start
+				for k := 0; k < st.Flips; k++ {
+					_ = p.SetExecModel(1)
+					_ = p.GetExecModel()
+				}
+			}()
 		}
 		close(start)
 		wg.Wait()
